@@ -235,6 +235,10 @@ def run(tier, seed):
     for i, p in enumerate(U.enumerate_programs(2)):
         if i < 992 or i % step == seed % step:
             items.append(dict(label="U#%d" % i, src=U.source(p), argv=U.needs_flags(p), ast=p))
+    nstep = 23 if tier == "quick" else 2
+    for i, p in enumerate(U.enumerate_nested()):       # one block nested in another (see C01)
+        if i % nstep == seed % nstep:
+            items.append(dict(label="N#%d" % i, src=U.source(p), argv=U.needs_flags(p) + (["-O3"] if i % 2 else []), ast=p))
     for j, p in enumerate(U.handwritten()):
         items.append(dict(label="HW#%d" % j, src=U.source(tuple(p)), argv=U.needs_flags(tuple(p)), ast=tuple(p), c_hang_search=True))
         items.append(dict(label="HW#%d" % j, src=U.source(tuple(p)), argv=U.needs_flags(tuple(p)) + ["-O3"], ast=tuple(p), c_hang_search=True))
